@@ -854,6 +854,11 @@ class MemorizedFunc(Logger):
         """
         call_id = (self.func_id, self._get_args_id(*args, **kwargs))
 
+        # The result is stored next to those of the regular calls: make sure
+        # that the function code recorded there is the one about to run (and
+        # that results computed by another version are dropped).
+        self._check_previous_func_code(stacklevel=3)
+
         # Return the output and the metadata
         return self._call(call_id, args, kwargs)
 
